@@ -316,9 +316,9 @@ def rule_r5(repo, run):
     sub2 = type(run)(run.prop, run.tier, write=False, known={"findings": [], "fixed": []})
     c10.rule_r1(repo, sub2, tables.build_helper_table(repo))
     for v in sub2.violations:
-        if v["construct"].endswith(":blank-scan"):
+        if v["construct"].endswith((":blank-scan", ":element-pointer")):
             run.fail(R, v["construct"], v["message"], v["loc"])
-    kept = [c for (rr, c) in sub2.nontrivial if c.endswith(":blank-scan") and c not in set(v["construct"] for v in sub2.violations)]
+    kept = [c for (rr, c) in sub2.nontrivial if c.endswith((":blank-scan", ":element-pointer")) and c not in set(v["construct"] for v in sub2.violations)]
     run.rules[R]["obligations"] += len(kept)
     run.rules[R]["discharged"] += len(kept)
     run.nontrivial.update((R, c) for c in kept)
@@ -406,8 +406,11 @@ def rule_x(repo, run):
     from checks import c04, c10, c08
     from sa.report import import_rules
     import_rules(run, R, c04, repo, {"C04.R6"})
-    import_rules(run, R, c10, repo, {"C10.R2"})
+    import_rules(run, R, c10, repo, {"C10.R2", "C10.R5"})
     import_rules(run, R, c08, repo, {"C08.R3", "C08.R4"}, only=lambda c: not c.startswith("wrapp."))
+    # enumerators are passed as argument values: the Fortran parameters must carry the C++ values (C11.R1, C11.R2)
+    from checks import c11
+    import_rules(run, R, c11, repo, {"C11.R1", "C11.R2"})
     # the helper that copies an array result/argument back never copies more than the caller's array holds
     from checks import c06
     import_rules(run, R, c06, repo, {"C06.R5"}, only=lambda c: "copy_array" in c or "ShroudCopyArray" in c)
